@@ -41,10 +41,10 @@ WRONG = {
     "boolean": [0, 1, "true", None],
     "int": [1 << 31, -(1 << 31) - 1, True, 1.5, "1", None, b"1"],
     "long": [1 << 63, -(1 << 63) - 1, True, 1.5, "1", None],
-    "float": ["1.5", True, None, b"x", [1.0]],
-    "double": ["1.5", False, None, b"x", {"a": 1.0}],
-    "bytes": ["str", 5, None, [1, 2]],
-    "string": [b"bytes", 5, None, ["a"]],
+    "float": ["1.5", True, None, b"x", [1.0], __import__("decimal").Decimal("1.5")],
+    "double": ["1.5", False, None, b"x", {"a": 1.0}, __import__("decimal").Decimal("0.1")],
+    "bytes": ["str", 5, None, [1, 2], memoryview(b"ab"), memoryview(__import__("array").array("i", [1, 2, 3]))],  # the mapping names bytes and bytearray only
+    "string": [b"bytes", 5, None, ["a"], memoryview(b"ab")],
     "enum": ["NOT_A_SYMBOL", 5, None, b"A", ""],
 }
 
@@ -64,7 +64,7 @@ def mutants(node, defs, d, tuples=True, in_union=False):
         if s > 0:
             out.append(b"\x00" * (s - 1))
     elif k == "array":
-        out += [5, None, {"a": 1}, "abc"]
+        out += [5, None, {"a": 1}, "abc", {1, 2}, b"ab"]
         items = list(d)
         for i, x in enumerate(items):
             for m in mutants(n["items"], defs, x, tuples):
